@@ -1665,7 +1665,13 @@ type retLeaf struct {
 }
 
 // returnLeaves expands result i of every return of fn through phis (one level of nesting per phi, cycles cut).
-func returnLeaves(fn *ssa.Function, i int) []retLeaf {
+func returnLeaves(fn *ssa.Function, i int) []retLeaf { return returnLeavesX(fn, i, false) }
+
+// returnLeavesDeep also looks through locals kept in memory on the way (a result handed through a second variable
+// that a closure captures): the leaf is then the value stored, selected in the block of the store.
+func returnLeavesDeep(fn *ssa.Function, i int) []retLeaf { return returnLeavesX(fn, i, true) }
+
+func returnLeavesX(fn *ssa.Function, i int, deep bool) []retLeaf {
 	var out []retLeaf
 	seen := map[ssa.Value]bool{}
 	var expand func(v ssa.Value, b, pred *ssa.BasicBlock)
@@ -1679,6 +1685,25 @@ func returnLeaves(fn *ssa.Function, i int) []retLeaf {
 				expand(e, ph.Block(), ph.Block().Preds[k])
 			}
 			return
+		}
+		// a local kept in memory (captured, or a result spilled for a defer): what the stores that reach this load put there
+		if u, ok := v.(*ssa.UnOp); ok && deep && u.Op == token.MUL && !seen[v] {
+			if a, ok := u.X.(*ssa.Alloc); ok && a.Parent() == fn {
+				seen[v] = true
+				sts := reachingStores(u, a)
+				inFn := true
+				for _, st := range sts {
+					if st.Parent() != fn {
+						inFn = false
+					}
+				}
+				if len(sts) > 0 && inFn {
+					for _, st := range sts {
+						expand(st.Val, st.Block(), nil)
+					}
+					return
+				}
+			}
 		}
 		out = append(out, retLeaf{v, b, pred})
 	}
@@ -1990,6 +2015,11 @@ func behindEmptyTableTest(fn *ssa.Function, in ssa.Instruction, field string, af
 // negation) is followed on the matching side only.  This is what makes `ok := f(); if !ok { return }` with f
 // inlined — the arm sets a flag, a join, then a test of the flag — as exact as the early return it stands for.
 func reachWithFlags(start *ssa.BasicBlock) map[*ssa.BasicBlock]bool {
+	return reachWithFlagsX(start, nil)
+}
+
+// reachWithFlagsX: the same, with a hook that decides further branch conditions (a value known for this search).
+func reachWithFlagsX(start *ssa.BasicBlock, decide func(cond ssa.Value) (taken, known bool)) map[*ssa.BasicBlock]bool {
 	seen := map[*ssa.BasicBlock]bool{}
 	visited := map[string]bool{}
 	var walk func(b *ssa.BasicBlock, env map[ssa.Value]bool)
@@ -2019,6 +2049,11 @@ func reachWithFlags(start *ssa.BasicBlock) map[*ssa.BasicBlock]bool {
 			}
 			if x, ok := env[v]; ok {
 				return x != neg, true
+			}
+			if decide != nil {
+				if x, ok := decide(v); ok {
+					return x != neg, true
+				}
 			}
 			return false, false
 		}
